@@ -24,6 +24,30 @@ Theorem C06_read_full : forall (need : nat) (s : script), (0 < need)%nat ->
   else exists e, snd (fst (read_full need s)) = Some e.
 Proof. exact read_full_spec. Qed.
 
+(* "uses exactly the bytes its source delivers", seen from the source's side (conservation).  pending s = the data
+   the source still holds, in order.  For an accepted count the bytes that left the source are a block buf of at most
+   4n/3 bytes at the FRONT of what it held - nothing skipped, duplicated, reordered or read ahead - and when the
+   source can deliver 4n/3 bytes that block is exactly the encoded entropy; a rejected count takes nothing.
+   The harness observes this quantity (`used` = bytes taken from the scripted reader) on every N case. *)
+Theorem C06_takes_exactly : forall (n l : Z) (s : script), valid_wc_z n ->
+  let need := Z.to_nat (n + n / 3) in
+  exists buf, (length buf <= need)%nat /\ pending s = buf ++ pending (snd (NewMnemonic n l s))
+    /\ ((need <= length (delivered s))%nat -> buf = firstn need (delivered s)).
+Proof. exact NewMnemonic_conserves. Qed.
+
+Theorem C06_rejected_takes_nothing : forall (n l : Z) (s : script), ~ valid_wc_z n -> snd (NewMnemonic n l s) = s.
+Proof. intros n l s H. rewrite (NewMnemonic_rejects n l s H). reflexivity. Qed.
+
+(* io.ReadFull on its own: buffer returned ++ what the source holds afterwards = what it held before *)
+Theorem C06_read_full_conserves : forall (need : nat) (s : script),
+  pending s = fst (fst (read_full need s)) ++ pending (snd (read_full need s)).
+Proof. exact read_full_conserves. Qed.
+
+(* non-vacuity: after 12 words out of a 20-byte response the source still holds the last 4 bytes *)
+Example C06_leftover :
+  pending (snd (NewMnemonic 12 2 [(repeat x00 7, None); (repeat x01 13, None)])) = repeat x01 4.
+Proof. vm_compute. reflexivity. Qed.
+
 (* non-vacuity: a script that delivers 16 bytes in three fragments, one of them empty *)
 Example C06_fragmented :
   fst (NewMnemonic 12 2 [(repeat x00 5, None); ([], None); (repeat x00 11, Some IoEOF)]) =
@@ -40,3 +64,6 @@ Proof. exact calls_generator. Qed.
 
 Print Assumptions C06_newmnemonic.
 Print Assumptions C06_read_full.
+Print Assumptions C06_takes_exactly.
+Print Assumptions C06_rejected_takes_nothing.
+Print Assumptions C06_read_full_conserves.
